@@ -98,23 +98,18 @@ int start_cgreen_messaging(int tag) {
 }
 
 void send_cgreen_message(int messaging, int result) {
-    CgreenMessage *message;
-    
-    message = (CgreenMessage *) malloc(sizeof(CgreenMessage));
-    if (message == NULL) {
-      return;
-    }
-    memset(message, 0, sizeof(*message));
-    message->type = queues[messaging].tag;
-    message->result = result;
+    /* no allocation: a result must not get lost because memory is short */
+    CgreenMessage message;
+
+    memset(&message, 0, sizeof(message));
+    message.type = queues[messaging].tag;
+    message.result = result;
     CGREEN_VERIF_POINT("before_write");
-    cgreen_pipe_write(queues[messaging].writepipe, message, sizeof(CgreenMessage));
+    cgreen_pipe_write(queues[messaging].writepipe, &message, sizeof(CgreenMessage));
     CGREEN_VERIF_POINT("after_write");
     // give the parent a chance to read so that failures are more likely to be output
     // before the child crashes
     sched_yield();
-
-    free(message);
 }
 
 int receive_cgreen_message(int messaging) {
